@@ -114,7 +114,11 @@ func ruleFU(c *Ctx, part string) {
 			}
 			return isFragLoad(call.Call.Args[0])
 		}
+		seqWidthBad := map[*ssa.BinOp]bool{}
 		isSeqCmp := func(b *ssa.BinOp) bool {
+			if bt, ok := b.X.Type().Underlying().(*types.Basic); !ok || bt.Kind() != types.Uint16 {
+				seqWidthBad[b] = true
+			}
 			n := 0
 			for _, side := range []ssa.Value{b.X, b.Y} {
 				walkDeps(side, func(x ssa.Value) bool {
@@ -261,6 +265,23 @@ func ruleFU(c *Ctx, part string) {
 				}
 			}
 		})
+		if part == "gap" {
+			for b, bad := range seqWidthBad {
+				n := 0
+				for _, side := range []ssa.Value{b.X, b.Y} {
+					walkDeps(side, func(x ssa.Value) bool {
+						if f, _, ok := fieldLoad(x); ok && f.Name() == "SequenceNumber" {
+							n++
+							return false
+						}
+						return true
+					})
+				}
+				if bad && n >= 2 {
+					viol["the sequence-number continuity comparison is not done in 16-bit unsigned arithmetic (operands are "+b.X.Type().String()+"): across the 65535->0 wrap consecutive fragments compare as a gap and the whole unit is dropped although nothing was lost"] = b
+				}
+			}
+		}
 		if nAppend == 0 || nEmit == 0 {
 			c.Lost("fu-shape:"+fname(fn), fmt.Sprintf("append sites=%d, emission sites=%d", nAppend, nEmit))
 			continue
